@@ -190,6 +190,10 @@ def classify(text, tree=None):
     except R.Undefined as e:
         if R.MAX_BITS_SEEN[0] > (1 << 16):
             return ("skip", "an intermediate is beyond the 2^16-bit fragment")
+        if R.FLOAT_SEEN[0]:
+            # a root took part before the undefined step: rink works in machine floats from there on (0.0 x 1e400 is NaN,
+            # not 0), so whether the divisor "is zero" is not an exact question any more
+            return ("skip", "a root takes part: machine floats by documented design")
         return ("undefined", str(e))
     except (R.OutOfScope, R.DimErr) as e:
         return ("skip", str(e))
